@@ -5,6 +5,7 @@ import ast
 import z3
 
 from .path import OutOfSubset
+from . import values as _values
 from .values import Sym, SInt, SBool, SStr, SReal, Opaque, SymSeq, VObj, VClass, Unknown, wrap, z3_of, is_sym
 
 NATIVE_SCALARS = (int, float, str, bool, type(None), bytes)
@@ -67,6 +68,9 @@ def truthy(v):
     if isinstance(v, SymSeq):
         return v.n > 0
     if isinstance(v, Opaque):
+        if v.sort in _values.ANY_VALUE_SORTS:
+            # an arbitrary VALUE (not an object of a class): 0, "", False, [], {} are possible - truthiness is an uninterpreted predicate of the value
+            return z3.Function("py:truthy:" + v.sort, v.z.sort(), z3.BoolSort())(v.z)
         return True  # objects without __bool__/__len__ are truthy; opaque refs model such objects
     if isinstance(v, Unknown):
         raise OutOfSubset(f"truthiness of unknown value {v!r}")
